@@ -218,14 +218,20 @@ class Parser(object):
             )
             decls[decl.name] = decl
 
-        for node in nodes:
-            if isinstance(node, model.Constant):
-                declare(self.constdecls, node)
-            if isinstance(node, model.Enum):
-                for mem in node.members:
-                    declare(self.constdecls, mem)
-            if isinstance(node, (model.Typedef, model.Enum, model.Struct, model.Union)):
-                declare(self.typedecls, node)
+        def declare_all(nodes_):
+            for node in nodes_:
+                if isinstance(node, model.Include):
+                    """ what an included file includes is visible too, as in C """
+                    declare_all(node.members)
+                if isinstance(node, model.Constant):
+                    declare(self.constdecls, node)
+                if isinstance(node, model.Enum):
+                    for mem in node.members:
+                        declare(self.constdecls, mem)
+                if isinstance(node, (model.Typedef, model.Enum, model.Struct, model.Union)):
+                    declare(self.typedecls, node)
+
+        declare_all(nodes)
 
         node = model.Include(stem, nodes)
         self.nodes.append(node)
